@@ -332,10 +332,11 @@ func (fr *Frame) appendOp(c *ssa.CallCommon, setRes func(*Val), h Heap, name str
 	}
 	newLen := g.define(fr.prefix+"applen", g.IS(), g.iadd("(s_len "+s+")", tlen))
 	fits := g.define(fr.prefix+"appfits", "Bool", g.ile(newLen, "(s_cap "+s+")"))
-	fr.oblig("append", "safety", "", g.ile(newLen, g.maxLen()), "append: length in range", c.Pos())
+	// a slice never holds 2^48 elements (memory): modelling bound, assumed (listed in the evidence)
+	fr.assume(g.ile(newLen, g.maxLen()), "append result length below 2^48 (memory bound)")
 	r, nh := fr.freshRef(h, "append_"+name)
 	newCap := g.fresh(fr.prefix+"appcap", g.IS())
-	g.defs = append(g.defs, and(g.ile(newLen, newCap), g.ile(newCap, g.maxLen())))
+	g.defs = append(g.defs, implies(g.ile(newLen, g.maxLen()), and(g.ile(newLen, newCap), g.ile(newCap, g.maxLen()))))
 	resArr := ite(fits, fmt.Sprintf("(s_arr %s)", s), r)
 	resOff := ite(fits, fmt.Sprintf("(s_off %s)", s), g.ilit(0))
 	resCap := ite(fits, fmt.Sprintf("(s_cap %s)", s), newCap)
@@ -381,10 +382,11 @@ func (fr *Frame) appendFixed(c *ssa.CallCommon, setRes func(*Val), h Heap, name,
 	earr := g.heapArr(h, en, esrt)
 	newLen := g.define(fr.prefix+"applen", g.IS(), g.iadd("(s_len "+s+")", g.ilit(k)))
 	fits := g.define(fr.prefix+"appfits", "Bool", g.ile(newLen, "(s_cap "+s+")"))
-	fr.oblig("append", "safety", "", g.ile(newLen, g.maxLen()), "append: length in range", c.Pos())
+	// a slice never holds 2^48 elements (memory): modelling bound, assumed (listed in the evidence)
+	fr.assume(g.ile(newLen, g.maxLen()), "append result length below 2^48 (memory bound)")
 	r, nh := fr.freshRef(h, "append_"+name)
 	newCap := g.fresh(fr.prefix+"appcap", g.IS())
-	g.defs = append(g.defs, and(g.ile(newLen, newCap), g.ile(newCap, g.maxLen())))
+	g.defs = append(g.defs, implies(g.ile(newLen, g.maxLen()), and(g.ile(newLen, newCap), g.ile(newCap, g.maxLen()))))
 	resArr := g.define(fr.prefix+"apparrref", "Int", ite(fits, fmt.Sprintf("(s_arr %s)", s), r))
 	resOff := ite(fits, fmt.Sprintf("(s_off %s)", s), g.ilit(0))
 	resCap := ite(fits, fmt.Sprintf("(s_cap %s)", s), newCap)
